@@ -131,8 +131,14 @@ CHECKS = {
              "eb_pck / eb_upk out of place and in place) on NIST-B283, NIST-K283 and the GF(2^17) tiny world, for affine, Lopez-Dahab "
              "projective and lambda representations, every tag byte and length, the point of order two; the definitions are "
              "model-checked exhaustively on all curves over GF(8), GF(16) (thorough GF(32)). The (de)compression routines of the "
-             "prime-side types are also run in place and out of place (alias events). Not decided: gt/fp12 compressed form, "
-             "ep3/4/8 and higher extension fields, *_print. The compression "
+             "prime-side types are also run in place and out of place (alias events). Third part: extension-field elements fp3 .. fp54 "
+             "(fpN_size_bin / _write_bin / _read_bin, full form) and target-group elements (gt_* / the packed cyclotomic forms of fp12, "
+             "fp18, fp24, thorough fp48; fp12_pck / fp12_upk) on the 256-bit pairing towers against model/CodecX + Codec3Spec: the bytes are "
+             "the concatenation of big-endian coefficients, a packed string denotes its completion by Karabina's formulas iff that "
+             "completion lies in the cyclotomic subgroup (g2 = g3 = 0 only for 1), every length band / coefficient >= p / damaged block is "
+             "refused, guards around every output buffer; MCCodecX checks Dec(Enc(x)) = x and Enc(Dec(s)) = s on every element of the "
+             "cyclotomic subgroup of F_7^12. Not decided: fp54 packed form, fp12_pck_max / upk_max (torus form), ep3/4/8 point codecs, "
+             "other field sizes, *_print. The compression "
              "bit is the parity of the STORED representation (y*R mod p in Montgomery builds): self-consistent, not SEC 1 interoperable (observation).",
         technique="TLC model checking of Enc/Dec definitions in tiny worlds + TLC trace validation of recorded codec calls"),
     "C03": dict(
@@ -208,7 +214,11 @@ CHECKS = {
              "BntSpec (BigNat/BigInt; relation form where a witness exists).",
         ref="§4 C09",
         note=_NOTE + " Primality of numbers >= 2^31 rests on isProbablePrime(128); the Gordon structure of bn_gen_prime_stron is "
-             "not observable (bit length and primality are); tnaf/rtnaf/frb/sac recodings are not driven here.",
+             "not observable (bit length and primality are). The tau-adic recodings bn_rec_tnaf_get / _mod / tnaf / rtnaf and the signed "
+             "aligned column recoding bn_rec_sac are driven by harness/drv_tau.c against model/TauSpec (arithmetic in Z[tau], the "
+             "representatives alpha_u by definition as least-norm residues, congruence modulo (tau^m - 1)/(tau - 1) by exact division and "
+             "by the eigenvalue homomorphism, digit set / w-non-adjacency / length / regularity clauses, capacities) for m = 283 and tiny m, "
+             "with the design model TauRecode (loops as coded, m = 5, 7, k < 2^10, w <= 4: 433 219 states).",
         technique="TLC model checking of transcribed recoding/gcd/reduction algorithms + TLC trace validation of recorded bn calls against the number-theoretic spec"),
     "C13": dict(
         text="The documented hash-to-curve constructions (expand_message_xmd by lib/Xmd; simplified SWU, Shallue-van de Woestijne, "
@@ -256,7 +266,10 @@ CHECKS = {
         ref="§4 C06",
         note=_NOTE + " Not decided: semantic security, collusion of several delegation helpers. A ciphertext representative c >= n of the "
              "right length may be refused or decrypted as c mod n (the property names padding, length and authentication only). "
-             "cp_ped and the g1/g2/gt share multiplications are not driven.",
+             "The secret-shared group multiplications g1_mul / g2_mul / gt_exp _lcl, _bct, _mpc (both parties per run, R_0 + R_1 = [x]P "
+             "judged in TLA+ on logged coordinates; deviating triples must not reconstruct), cp_ped_com (c = [x]G + [r]h; h = O, x = 0, "
+             "x >= n declined) and Shamir reconstruction from every subset of every size >= 2 are driven by harness/drv_mpc.c against "
+             "model/MpcSpec, with the flow model MpcFlows over Z_5 (thorough Z_7, Z_11; controls refuted).",
         technique="TLC evaluation of explicit TLA+ scheme definitions on recorded events (trace validation) + TLC model checking of padding/Paillier/sharing/delegation design models"),
     "C05": dict(
         text="Design models: model/Sig (ECDSA and EC-Schnorr over cyclic groups of order 7, 11, 13: every key, nonce, digest, every "
